@@ -2,6 +2,7 @@ package main
 
 import (
 	"encoding/json"
+	"fmt"
 
 	"os"
 	"path/filepath"
@@ -78,6 +79,43 @@ func replayTies(c *Ctx, raw json.RawMessage) bool {
 	first := ""
 	for rep := 0; rep < 40; rep++ {
 		res := race.Run(run.Opt{Dir: repoDir, Args: rp.Input.Args, Home: scratch, Env: []string{"GORACE=halt_on_error=0"}})
+		if res.Exit != 0 || strings.Contains(string(res.Stderr), "DATA RACE") {
+			return true
+		}
+		if first == "" {
+			first = string(res.Stdout)
+		} else if first != string(res.Stdout) {
+			return true
+		}
+	}
+	return false
+}
+
+// replayLarge re-executes the large-history runs on a fresh -race build.
+func replayLarge(c *Ctx, raw json.RawMessage) bool {
+	var rp struct {
+		Input struct {
+			N int `json:"n"`
+		} `json:"input"`
+	}
+	json.Unmarshal(raw, &rp)
+	if rp.Input.N <= 0 {
+		rp.Input.N = 500
+	}
+	scratch, _ := mkScratch(c.Scratch)
+	race, err := run.BuildSizer(filepath.Join(scratch, "racebin"), "verif", true)
+	if err != nil {
+		Infra("%v", err)
+	}
+	repoDir := filepath.Join(scratch, "r")
+	sc := largeCase(rp.Input.N)
+	if _, err := materialiseCase(repoDir, &sc); err != nil {
+		Infra("replay: %v", err)
+	}
+	first := ""
+	for rep := 0; rep < 12; rep++ {
+		res := race.Run(run.Opt{Dir: repoDir, Args: []string{"--json", "--no-progress"}, Home: scratch,
+			Env: []string{fmt.Sprintf("GOMAXPROCS=%d", []int{4, 1, 16, 2}[rep%4]), "GORACE=halt_on_error=0"}})
 		if res.Exit != 0 || strings.Contains(string(res.Stderr), "DATA RACE") {
 			return true
 		}
